@@ -80,6 +80,34 @@ def run(ctx):
             worst["key"] = key
         return True
 
+    # which base kernels / operators follow their documented VALUE formula at well-conditioned probe points?
+    # (where they do not - property C05's business - the documented derivative is not the reference for C11)
+    deviating = set()
+    px, py = jnp.asarray([[0.0, 0.0]]), jnp.asarray([[0.6, 0.8], [0.3, 0.4], [1.2, 1.6], [0.0, 0.05]])
+    for name in W.BASES:
+        for ls0 in (0.5, 1.0, 2.0):
+            nd = W.Node("base", W.make_ad("none", rng, 2), name=name, ls=ls0, alpha=1.5)
+            Kp = np.asarray(nd.build()(px, py))[0]
+            for j in range(4):
+                vv = nd.oracle(np.zeros(2), np.asarray(py[j]))[0]
+                if not abs(Kp[j] - vv) <= 1e-12 * (1 + abs(vv)):
+                    deviating.add(name)
+    for op in W.OPS:
+        l0 = W.Node("base", W.make_ad("none", rng, 2), name="ExpQuad", ls=1.0)
+        r0 = W.Node("base", W.make_ad("none", rng, 2), name="Matern32", ls=2.0)
+        nd = W.Node(op, W.make_ad("none", rng, 2), left=l0, right=r0 if op in ("add", "mul") else None, c=1.5)
+        Kp = np.asarray(nd.build()(px, py))[0]
+        for j in range(4):
+            vv = nd.oracle(np.zeros(2), np.asarray(py[j]))[0]
+            if not abs(Kp[j] - vv) <= 1e-12 * (1 + abs(vv)):
+                deviating.add(op)
+
+    def parts(nd):
+        if nd.op == "base":
+            return {nd.name}
+        out = {nd.op} | parts(nd.left)
+        return out | (parts(nd.right) if nd.right is not None else set())
+
     # ---------------------------------------------------------------- A. distance_grad entries
     for width in [1, 2, 3, 5] + ([8, 25] if T else [12]):
         X, Y = W.point_sets(rng, width)
@@ -120,7 +148,7 @@ def run(ctx):
             D, G = mu.distance_grad(jnp.asarray(X))(jnp.asarray(Y))
             D, G = np.asarray(D), np.asarray(G)
             # the documented derivative is the reference only where the value follows the documented formula (else: C05)
-            documented = all(abs(K0[0, j] - W.phi(name, ls, alpha, float(D[0, j]))) <= 1e-9 for j in range(Y.shape[0]))
+            documented = name not in deviating and all(abs(K0[0, j] - W.phi(name, ls, alpha, float(D[0, j]))) <= 1e-9 for j in range(Y.shape[0]))
             for j in range(Y.shape[0] if T else 4):
                 c = rng.randrange(width)
                 d, g = float(D[0, j]), float(G[0, j, c])
@@ -129,7 +157,8 @@ def run(ctx):
                 kappa = 72.0
                 if name == "RatQuad":
                     kappa += 4 * alpha + 2 * abs((alpha + 1) * math.log1p(d * d / (2 * alpha * ls * ls)))
-                tol = 8 * W.U * abs(d * W.d2phi(name, ls, alpha, d) * g) + kappa * W.U * abs(v) + W.TINY
+                mag = max(1.0, abs(KG[0, j, c]) / abs(v)) if v != 0 and np.isfinite(KG[0, j, c]) else 1.0
+                tol = (8 * W.U * abs(d * W.d2phi(name, ls, alpha, d) * g) + kappa * W.U * abs(v)) * mag + W.TINY
                 if documented:
                     compare("C11|coefficient|%s" % name, "%s.k_grad is not phi'(dist) times the distance gradient" % name, KG[0, j, c], v, tol,
                         {"call": "mellon.cov.%s(ls=%r%s).k_grad(x[None])(y[None])[0,0,%d]" % (name, ls, ", alpha=%r" % alpha if alpha else "", c),
@@ -177,7 +206,7 @@ def run(ctx):
         # does the kernel VALUE agree with its documented formula here?  If it does not (that is property C05's
         # business), the gradient of the documented formula is not the reference for C11: the reference is then the
         # derivative of what the implementation computes (autodiff of k, finite differences of k).
-        documented = True
+        documented = not (parts(node) & deviating)
         orc = {(i, j): node.oracle(X[i], Y[j], grad=True) for i in range(X.shape[0]) for j in range(Y.shape[0])}
         try:
             K = np.asarray(cov(jX, jY))
@@ -283,6 +312,7 @@ def run(ctx):
     ctx.cov["finite_difference_entries"] = n_fd
     ctx.cov["pairs_outside_model_nonpositive_power_base"] = skipped_nonpos
     ctx.cov["trees_whose_value_deviates_from_documented_formula_autodiff_reference_only"] = n_undocumented
+    ctx.cov["kernels_or_operators_whose_value_deviates_from_documented_formula"] = sorted(deviating)
     ctx.cov["largest_observed_error_over_allowed"] = [round(worst["ratio"], 4), worst.get("key")]
     ctx.cov["rule"] = ("every depth-2 tree shape (5 operators x 6 (x 6) base kernels) with each of the six active_dims forms at the root and random forms below, "
                        "every base kernel x every form, 25-feature kernels, sampled depth-3 trees; point sets with coincident, 1e-7 and 1e-10-relative near-coincident, "
